@@ -160,7 +160,7 @@ def check(tier):
         lead = [x['ws_first_desc'] for x in strs if x['ws_first']]
         trail = [x['ws_last_desc'] for x in strs if x['ws_last']]
         if lead or trail:
-            if mn in scope.C02_UNDECIDED:
+            if mn in scope.C02_EDGES_UNDECIDED:
                 rep.undecide('C02.edges', file, scope.C02_UNDECIDED[mn])
             else:
                 rep.fail('C02.edges', file, 'validate', 'whitespace at the %s' % ('start and end' if lead and trail else 'start' if lead else 'end'), 0,
